@@ -23,7 +23,7 @@ enum Tmpl {
 
 const ESC_MARK: char = '\u{e000}';
 
-const NAME_POOL: &[&str] = &["a", "b", "v", "x", "name", "n1", "", "é", "a.b", "a::b", "a-b", "A", "日", "a$b", "a{b", "a\"b", "a#b", "$", "%", "{", "a%b", "😀", ":", "!", "'"];
+const NAME_POOL: &[&str] = &["a", "b", "v", "x", "name", "n1", "", "é", "a.b", "a::b", "a-b", "A", "日", "a$b", "a{b", "a\"b", "a#b", "$", "%", "{", "a%b", "😀", ":", "!", "'", "page\u{c}2", "k\u{b}1", "x\u{a0}y", "m\u{2003}n"];
 
 fn var_name(t: &mut Tape) -> String {
     if t.chance(1, 40) {
@@ -440,7 +440,7 @@ pub fn property() -> Property {
         rule: "1..8 (one case in fifty: 20..120) argument templates (literal text free of $ % \\, ${name}, \\${name}, whole-argument %{name}) over 1..6 names (incl. empty, odd and 40..400-character names) and an environment of arbitrary-Unicode values (some of 4..70 KiB, some spread values of 101..700 words) biased to syntax look-alikes that refer to existing names; received arguments compared (count, order, text) with a reference expander. Drivers: direct (run_instruction on an in-memory instruction) and text (rendered line run by run_script, values delivered at run time by 'v = put i'). Non-trivial: a substituted value with a non-alphanumeric character, or a spread of != 1 words; distinct by (templates, environment) hash",
         assumptions: &[
             "spread words never start with '\"' and never contain '#' (the re-split honours quotes and comments; the property speaks of space-separated words)",
-            "names are free of white space, '=' and '}' and contain no backslash and not the openers '${' / '%{' (inside an escaped reference the name is scanned as ordinary text, so such a name is itself read as syntax); literal text is free of '$', '%' and backslash",
+            "names are free of the space, tab, CR, LF (other white space only inside a name), '=' and '}' and contain no backslash and not the openers '${' / '%{' (inside an escaped reference the name is scanned as ordinary text, so such a name is itself read as syntax); literal text is free of '$', '%' and backslash",
         ],
         sections: vec![
             Section {
